@@ -795,6 +795,18 @@ def scripted(big=False):
                             O('iterate', d='d6'), O('close_dir', d='d6'), O('close_dir', d='d5'), O('close_dir', d='d4'), O('close_dir', d='d3'), O('close_dir', d='d2'), O('close_dir', d='d1')] + epilogue()
         add('S34-' + gname, (dict(vols=[v]), upc, bounds), ops, upc, lim=(8, 8, 4))
 
+    # S35: files whose chains live in the FIRST FAT block (low clusters, as on any freshly formatted medium) made durable, then
+    # volume-level work only: closing the volume (information sector, whatever else a close writes), opening it again, a mkdir
+    for gname in ['G32r', 'G32s', 'G32a', 'G16a']:
+        img = image_of(gname, tree='T1', nfree=5)
+        upc = img[1]
+        ops = prologue() + [O('open_dir', d='d0', name='TEST', as_='d1'), O('open_file', d='d1', name='TEST.DAT', mode='Append', as_='f0'), O('write', f='f0', n=1), O('close_file', f='f0'),
+                            O('open_file', d='d0', name='README.TXT', mode='Append', as_='f1'), O('write', f='f1', n=1), O('flush', f='f1'), O('close_file', f='f1'),
+                            O('close_dir', d='d1'), O('close_dir', d='d0'), O('close_volume', v='v0'),
+                            O('open_volume', idx=None, as_='v1'), O('open_root', v='v1', as_='d2'), O('mkdir', d='d2', name='LATER'), O('iterate', d='d2'),
+                            O('close_dir', d='d2'), O('close_volume', v='v1'), O('remount')]
+        add('S35-' + gname, img, ops, upc)
+
     # S7: several volumes at once
     img = image_multi()
     upc = img[1]
